@@ -99,3 +99,15 @@ def cache_consts(**kw):
 for cap, nm in ((0, "off"), (1, "k1"), (2, "k2"), (99, "inf")):
     cfg("MC_cache_%s.cfg" % nm, cache_consts(Capacity="= %d" % cap, MaxLen="= 4"), CACHE_INV, spec="SpecE")
     cfg("MC_cache_%s_big.cfg" % nm, cache_consts(Capacity="= %d" % cap, MaxLen="= 4", ReqPool="<- PoolStd"), CACHE_INV, spec="SpecE")
+
+# ---- C14: subscriptions ----------------------------------------------------------------------
+SUB_INV = ["R1_Sub", "EmitSub"]
+def sub_consts(**kw):
+    d = fault_consts(OpTypes='= {"subscription"}', MaxEvents="= 2", EventKinds="<- EvKinds", AllowRefused="= TRUE", FieldAlpha="<- AlphaSub", ArgOpts="<- ArgOptsSub", Aliases='= {"", "z"}', MaxSel="= 3")
+    d.update(kw)
+    return d
+cfg("MC_sub_2.cfg", sub_consts(MaxSel="= 2"), SUB_INV, spec="SpecSub", props=["SubProgress"])
+cfg("MC_sub_3.cfg", sub_consts(MaxEvents="= 3", MaxSel="= 2", Aliases='= {""}', FieldAlpha="<- AlphaSub3", AllowRefused="= FALSE", EventKinds="<- EvKinds2"), SUB_INV, spec="SpecSub", props=["SubProgress"])
+cfg("MC_sub_2_big.cfg", sub_consts(), SUB_INV, spec="SpecSub", props=["SubProgress"])
+cfg("MC_sub_3_big.cfg", sub_consts(MaxEvents="= 3", MaxSel="= 2", Aliases='= {""}'), SUB_INV, spec="SpecSub", props=["SubProgress"])
+cfg("MC_sub_frag.cfg", sub_consts(MaxEvents="= 2", MaxSel="= 3", Aliases='= {""}', MaxFrags="= 1", Conds='= {"T", "Subscription"}', FieldAlpha="<- AlphaSub2", AllowRefused="= FALSE"), SUB_INV, spec="SpecSub", props=["SubProgress"])
